@@ -94,6 +94,68 @@ func mjParked() int {
 	return cnt
 }
 
+// mjDumpSignature: the states and top frames of the goroutines that are inside the
+// MaxJobsSemaphore (two equal signatures some time apart = nobody moved)
+func mjDumpSignature() string {
+	buf := make([]byte, 1<<16)
+	for {
+		n := runtime.Stack(buf, true)
+		if n < len(buf) {
+			buf = buf[:n]
+			break
+		}
+		buf = make([]byte, 2*len(buf))
+	}
+	var sig []string
+	for _, g := range bytes.Split(buf, []byte("\n\n")) {
+		if !bytes.Contains(g, []byte("MaxJobsSemaphore")) {
+			continue
+		}
+		lines := bytes.SplitN(g, []byte("\n"), 4)
+		if len(lines) >= 3 {
+			hdr := string(lines[0])
+			if i := strings.IndexByte(hdr, ','); i > 0 {
+				hdr = hdr[:i] // without the "N minutes" annotation
+			}
+			sig = append(sig, hdr+"|"+string(lines[1])+"|"+string(bytes.TrimSpace(lines[2])))
+		}
+	}
+	sort.Strings(sig)
+	return strings.Join(sig, ";")
+}
+
+// mjAllParked: every goroutine with the MaxJobsSemaphore or the RemoteJobManager on its stack is
+// blocked in sync.Cond.Wait (none is running, runnable, submitting a job or waiting for a lock).
+func mjAllParked() bool {
+	buf := make([]byte, 1<<16)
+	for {
+		n := runtime.Stack(buf, true)
+		if n < len(buf) {
+			buf = buf[:n]
+			break
+		}
+		buf = make([]byte, 2*len(buf))
+	}
+	for _, g := range bytes.Split(buf, []byte("\n\n")) {
+		if !bytes.Contains(g, []byte("MaxJobsSemaphore")) && !bytes.Contains(g, []byte("RemoteJobManager")) {
+			continue
+		}
+		if bytes.Contains(g, []byte("main.mjAllParked")) {
+			continue // the harness's own goroutine taking this dump
+		}
+		nl := bytes.IndexByte(g, '\n')
+		if nl < 0 {
+			return false
+		}
+		hdr := g[:nl]
+		i := bytes.IndexByte(hdr, '[')
+		if i < 0 || !bytes.HasPrefix(hdr[i+1:], []byte("sync.Cond.Wait")) {
+			return false
+		}
+	}
+	return true
+}
+
 var mjParkDetection = true
 
 type mjExec struct {
@@ -101,6 +163,9 @@ type mjExec struct {
 	Expect   []string // per model op: expected result char T/F/W/- and, after '|', Current() or * (not observed)
 	StepOf   []int    // real op index of each model op
 	Monitors []string
+	// a call into the semaphore did not return / the callers never became quiescent: the rest of
+	// the sequence was not executed and goroutines may have been left behind (possibly spinning)
+	Abandoned bool
 	// the same run for the model WITH callers (Martian.SemaphoreMJP, driver op C12.mjp):
 	// per op the expected result (T/F/-, for Q: the parked callers, sorted, after '|' and Current())
 	POps, PWant []string
@@ -122,9 +187,40 @@ func execMJ(limit, nmd int, ops []mjOp) mjExec {
 	}
 	results := make(chan mjRes, len(ops)+4)
 	blocked := map[int]int{} // wid -> md
+	// callers of EARLIER sequences that a broken semaphore never released are still parked:
+	// only the callers parked since now count
+	step := 0
+	parked0 := 0
+	if mjParkDetection {
+		parked0 = mjParked()
+	}
+	// call runs one call of the harness's own goroutine into the semaphore under a watchdog: a
+	// call that spins or blocks for ever is a stall of mrp itself.  Progress-based: after the
+	// load-scaled wait the goroutine dump must also have stopped changing.
+	call := func(name string, f func()) bool {
+		done := make(chan struct{})
+		go func() { f(); close(done) }()
+		deadline := time.NewTimer(c12Wait)
+		defer deadline.Stop()
+		last := ""
+		for ext := 0; ; ext++ {
+			select {
+			case <-done:
+				return true
+			case <-deadline.C:
+			}
+			sig := mjDumpSignature()
+			if sig == last || ext >= 3 {
+				ex.Monitors = append(ex.Monitors, fmt.Sprintf("call-does-not-return@%d: %s has not returned after %v and no goroutine of the scenario moved meanwhile", step, name, c12Wait))
+				ex.Abandoned = true
+				return false
+			}
+			last = sig
+			deadline.Reset(c12Wait / 4)
+		}
+	}
 	nextW := 0
 	cleared := false
-	step := 0
 	fail := func(name, f string, a ...interface{}) {
 		ex.Monitors = append(ex.Monitors, fmt.Sprintf("%s@%d: %s", name, step, fmt.Sprintf(f, a...)))
 	}
@@ -160,7 +256,7 @@ func execMJ(limit, nmd int, ops []mjOp) mjExec {
 				}
 			}
 			if mjParkDetection {
-				if mjParked() == unreturned {
+				if mjParked()-parked0 == unreturned {
 					// one more drain: a goroutine may have returned between drain and dump
 					select {
 					case r := <-results:
@@ -181,7 +277,8 @@ func execMJ(limit, nmd int, ops []mjOp) mjExec {
 				}
 			}
 			if time.Now().After(deadline) {
-				fail("not-quiescent", "%d Acquire goroutines neither returned nor parked", unreturned-mjParked())
+				fail("not-quiescent", "%d Acquire goroutines neither returned nor parked", unreturned-(mjParked()-parked0))
+				ex.Abandoned = true
 				return got
 			}
 			runtime.Gosched()
@@ -204,7 +301,10 @@ func execMJ(limit, nmd int, ops []mjOp) mjExec {
 			continue
 		case "a":
 			if op.NB {
-				b := sem.Acquire(mds[op.Md], true)
+				var b bool
+				if !call(fmt.Sprintf("Acquire(job %d, nonblocking)", op.Md), func() { b = sem.Acquire(mds[op.Md], true) }) {
+					return ex
+				}
 				emit(fmt.Sprintf("t%d:%s:1", op.Md, mjStChar(st[op.Md])), tf(b))
 				pemit(fmt.Sprintf("e%d:%d:%s:1", 100000+i, op.Md, mjStChar(st[op.Md])), tf(b))
 			} else {
@@ -216,11 +316,15 @@ func execMJ(limit, nmd int, ops []mjOp) mjExec {
 				}(newW, mds[op.Md])
 			}
 		case "r":
-			sem.Release(mds[op.Md])
+			if !call(fmt.Sprintf("Release(job %d)", op.Md), func() { sem.Release(mds[op.Md]) }) {
+				return ex
+			}
 			emit(fmt.Sprintf("r%d", op.Md), "-")
 			pemit(fmt.Sprintf("r%d", op.Md), "-")
 		case "f":
-			sem.FindDone()
+			if !call("FindDone()", func() { sem.FindDone() }) {
+				return ex
+			}
 			var fin []string
 			for m := range mds {
 				if mjDone(st[m]) {
@@ -230,12 +334,17 @@ func execMJ(limit, nmd int, ops []mjOp) mjExec {
 			emit("f"+strings.Join(fin, "."), "-")
 			pemit("f"+strings.Join(fin, "."), "-")
 		case "c":
-			sem.Clear()
+			if !call("Clear()", func() { sem.Clear() }) {
+				return ex
+			}
 			cleared = true
 			emit("c", "-")
 			pemit("c", "-")
 		}
 		got := settle(launched)
+		if ex.Abandoned {
+			return ex
+		}
 		if newW >= 0 {
 			if b, ok := got[newW]; ok {
 				emit(fmt.Sprintf("t%d:%s:0", op.Md, mjStChar(st[op.Md])), tf(b))
@@ -309,15 +418,21 @@ func execMJ(limit, nmd int, ops []mjOp) mjExec {
 	}
 	// cleanup
 	if len(blocked) > 0 {
-		sem.Clear()
-		t := time.NewTimer(2 * time.Second)
-		for range blocked {
+		call("Clear()", func() { sem.Clear() })
+		// wait for the callers to return; if they all sit in cond.Wait again after the Clear they
+		// never will (a semaphore that does not let go: counted out by the next baseline)
+		remaining := len(blocked)
+		for dl := time.Now().Add(2 * time.Second); remaining > 0 && time.Now().Before(dl); {
 			select {
 			case <-results:
-			case <-t.C:
+				remaining--
+			default:
+				if mjParkDetection && mjParked()-parked0 >= remaining {
+					remaining = 0
+				}
+				runtime.Gosched()
 			}
 		}
-		t.Stop()
 	}
 	return ex
 }
@@ -493,7 +608,7 @@ func runC12MaxJobs(c *Ctx) {
 		n = 40000
 	}
 	reported := 0
-	budget := 25 * time.Second
+	budget := 15 * time.Second
 	if c.Thorough {
 		budget = 240 * time.Second
 	}
@@ -526,17 +641,37 @@ func runC12MaxJobs(c *Ctx) {
 		if i%499 == 0 {
 			r.sample(map[string]interface{}{"maxjobs_limit": mc.Limit, "ops": mjOpsString(mc.Ops), "model_ops": strings.Join(ex.ModelOps, ","), "real": strings.Join(ex.Expect, ",")})
 		}
-		if kind == "" || reported >= 3 {
+		if kind == "" {
 			continue
 		}
+		if reported >= 3 {
+			r.note("MaxJobsSemaphore stream stopped after three reported disagreements")
+			break
+		}
 		// re-execute once alone
-		k2, w2, _, _ := checkMJ(c, mc)
+		k2, w2, ex2, rep2 := checkMJ(c, mc)
 		if k2 == "" {
 			r.note("a MaxJobsSemaphore %s disagreement (%s) did not reproduce on re-execution; not reported: limit=%d ops=%s", kind, what, mc.Limit, mjOpsString(mc.Ops))
+			if ex.Abandoned {
+				r.note("MaxJobsSemaphore stream stopped: a sequence had to be abandoned (goroutines may have been left behind)")
+				break
+			}
 			continue
 		}
 		reported++
 		kind, what = k2, w2
+		if ex.Abandoned || ex2.Abandoned {
+			// a semaphore call that does not return / callers that never settle: every further
+			// execution leaves more goroutines behind (possibly spinning) — report the sequence as it
+			// is, without shrinking, and end the stream
+			r.violate(Violation{Kind: "property", Key: "C12:maxjobs:" + monitorName(w2), What: "MaxJobsSemaphore: " + w2,
+				Input: map[string]interface{}{"limit": mc.Limit, "jobs": mc.Nmd, "ops": mjOpsString(mc.Ops),
+					"encoding": "s<j>=<state> set job j's metadata state, acq<j> blocking Acquire in its own goroutine, try<j> non-blocking Acquire, rel<j> Release, finddone, clear"},
+				Impl: map[string]interface{}{"model_ops": ex2.ModelOps, "real_result|Current": ex2.Expect}, Model: rep2,
+				Expect: "every call into the semaphore returns and the callers settle (returned or parked in cond.Wait)"})
+			r.note("MaxJobsSemaphore stream stopped after a call that did not return / callers that never settled")
+			break
+		}
 		same := func(t mjCase) bool {
 			k, w, _, _ := checkMJ(c, t)
 			return k == kind && (kind != "property" || monitorName(w) == monitorName(what))
